@@ -276,16 +276,17 @@ def perturb_uniform(rng, m):
 def assign_mixtures(rng, s):
     n = len(s.mols)
     kind = rng.choice(["abs", "pct", "mixed"])
+    fine = rng.random() < 0.3  # values that use the whole mantissa: nothing may be rounded between parse and print
     if kind == "abs":
         for m in s.mols:
-            m.mixture = ("abs", float(rng.choice([100, 250, 1000, 5000, 12345.5])))
+            m.mixture = ("abs", rng.uniform(0.5, 40.0) if fine else float(rng.choice([100, 250, 1000, 5000, 12345.5])))
     elif kind == "pct":
         rest = 100.0
         for i, m in enumerate(s.mols):
             if i == n - 1:
-                m.mixture = ("abs", 2000.0)
+                m.mixture = ("abs", rng.uniform(1.0, 30.0) if fine else 2000.0)
             else:
-                p = round(rest * rng.uniform(0.1, 0.6), 1)
+                p = rest * rng.uniform(0.1, 0.6) if fine else round(rest * rng.uniform(0.1, 0.6), 1)
                 rest -= p
                 m.mixture = ("pct", p)
     else:
